@@ -16,6 +16,7 @@ from commonroad.common.util import AngleInterval, Interval
 from commonroad.geometry.shape import Circle, Polygon, Rectangle, ShapeGroup
 from commonroad.prediction.prediction import Occupancy, SetBasedPrediction, TrajectoryPrediction
 from commonroad.scenario.lanelet import Lanelet, LaneletNetwork
+from commonroad.scenario.scenario import Scenario
 from commonroad.scenario.obstacle import DynamicObstacle, PhantomObstacle, StaticObstacle
 from commonroad.scenario.state import CustomState
 from commonroad.scenario.traffic_light import TrafficLightCycle, TrafficLightCycleElement
@@ -770,7 +771,32 @@ class Run(RunBase):
             self.shadow = {"sc": self.sc, "standalone": self.standalone, "hist": copy.deepcopy(self.hist),
                            "via_scenario": set(self.via_scenario)}
             self.probe("fork-keeps-original")
-        if op["how"] == "pickle":
+        if op["how"] == "derive":
+            # the new scenario's map is a network DERIVED from the lanelets of the old one (lanelets only)
+            src = self.sc.lanelet_network
+            obstacles, self.standalone = copy.deepcopy((self.sc.obstacles, self.standalone))
+            for ob in obstacles:
+                # lanelet assignments refer to the old map (C11 feeds made-up id sets into update_initial_state)
+                for attr in ("initial_center_lanelet_ids", "initial_shape_lanelet_ids"):
+                    if getattr(ob, attr, None) is not None:
+                        setattr(ob, attr, None)
+                pr = getattr(ob, "prediction", None)
+                if pr is not None and getattr(pr, "center_lanelet_assignment", None) is not None:
+                    pr.center_lanelet_assignment = None
+                if pr is not None and getattr(pr, "shape_lanelet_assignment", None) is not None:
+                    pr.shape_lanelet_assignment = None
+            try:
+                new_sc = Scenario(dt=self.sc.dt, scenario_id=copy.deepcopy(self.sc.scenario_id))
+                new_sc.add_objects(
+                    LaneletNetwork.create_from_lanelet_list(src.lanelets, cleanup_ids=bool(op.get("cleanup"))))
+                new_sc.add_objects(obstacles)
+            except Exception as e:  # noqa
+                raise Violation("C11/derive-raised/restart", f"deriving a network from a network's lanelets raised "
+                                                             f"{type(e).__name__}: {e}")
+            self.sc = new_sc
+            self.via_scenario = {la.lanelet_id for la in new_sc.lanelet_network.lanelets}
+            self.probe("fork-by-derived-network")
+        elif op["how"] == "pickle":
             self.sc, self.standalone = pickle.loads(pickle.dumps((self.sc, self.standalone)))
         else:
             self.sc, self.standalone = copy.deepcopy((self.sc, self.standalone))
@@ -1000,7 +1026,8 @@ def _restarter(rng, run, cfg):
         if run.shadow is not None and rng.chance(0.5):
             yield {"op": "swap"}
         else:
-            yield {"op": "restart", "how": rng.pick(["pickle", "deepcopy"]), "keep": rng.chance(0.5)}
+            yield {"op": "restart", "how": rng.pick(["pickle", "deepcopy", "derive"]), "keep": rng.chance(0.5),
+                   "cleanup": rng.chance(0.5)}
 
 
 QUERIES = ["q_occ", "q_state", "q_scn_occ", "q_scn_states", "q_poly", "q_dist", "q_pos", "q_shape", "q_light", "sweep"]
@@ -1014,7 +1041,7 @@ class C11(Property):
     id = "C11"
     title = "Derived data never goes stale under mutation"
     tiers = {"quick": {"runs": 1600, "wall": 240, "chunk": 10}, "thorough": {"runs": 60000, "wall": 1700, "chunk": 25}}
-    expected_probes = ["restart-with-warm-cache", "history-truncation-hit", "fork-keeps-original",
+    expected_probes = ["restart-with-warm-cache", "history-truncation-hit", "fork-keeps-original", "fork-by-derived-network",
                        "continued-on-the-other-copy", "trajectory-replaced-by-shifted-copy",
                        "trajectory-object-transformed-and-reassigned", "cycle-edited-in-place-and-reassigned",
                        "merge-with-id-clash", "two-obstacles-share-one-state-list",
@@ -1057,7 +1084,7 @@ class C11(Property):
                 "max_lens": sorted(rng.sample([1, 2, 3, 4, 6000], rng.randint(1, 3)))}
 
     def gen_universe(self, rng, cfg):
-        ids = gen.IdAlloc(rng, 1, 300)
+        ids = gen.IdAlloc(rng, 1, 300, zero=0.15)
         net = gen.gen_network(rng, rows=rng.randint(1, 2), cols=rng.randint(1, 3), ids=ids, signs=False,
                               intersections=False, stop_lines=rng.chance(0.5))
         net.pop("_geom", None)
